@@ -28,6 +28,7 @@ type manShadow struct {
 	refSize  int             // marshalled size of a response that lists only this descriptor
 	at       string          // artifact type used by the filter
 	blobGone bool
+	respLost bool // a collection ran while the subject was not a manifest of the repository: the response is dropped with its subject (F35)
 }
 
 type sessShadow struct {
@@ -56,6 +57,7 @@ type Monitors struct {
 	pre   map[string][]string
 	fsBase []string
 	prevStore  string
+	prevRef    string // the referrers switch before the last restart
 	gcBefore   *gcPre
 	aged       map[string]bool // repo|digest whose age was set beyond the grace period
 	diskShadow map[string]*repoShadow
@@ -97,6 +99,7 @@ func (m *Monitors) reset(h *H) {
 	m.everSeen = nil
 	m.aged = map[string]bool{}
 	m.prevStore = kv(h.confToks, "store")
+	m.prevRef = fmt.Sprint(*h.conf.API.Referrer.Enabled)
 	m.diskShadow = map[string]*repoShadow{}
 	m.repos = map[string]*repoShadow{}
 	m.sess = map[int]*sessShadow{}
@@ -142,9 +145,13 @@ func (m *Monitors) restarted(h *H) {
 	default:
 		m.repos = map[string]*repoShadow{}
 	}
+	refNow := fmt.Sprint(*h.conf.API.Referrer.Enabled)
 	for _, rs := range m.repos {
-		rs.refDirty = true // configuration may have changed
+		if m.prevRef != refNow || m.prevStore != kv(h.confToks, "store") {
+			rs.refDirty = true // pushes and deletes while the referrers API was off are not in the responses (C19, F24)
+		}
 	}
+	m.prevRef = refNow
 	m.prevStore = kv(h.confToks, "store")
 }
 
@@ -776,6 +783,7 @@ func (m *Monitors) mPut(h *H, a []string, r Resp) {
 		rs.mans[real] = ms
 	}
 	ms.blobGone = false
+	ms.respLost = false // a push registers the manifest with its subject again
 	m.note(repo, real)
 	ms.mts[mt] = true
 	rs.pushed[string(body)] = true
@@ -1048,20 +1056,36 @@ func (m *Monitors) refs(h *H, a []string, r Resp) {
 		}
 		for e := range exp {
 			if cnt[e] == 0 && !tooBig[e] {
-				m.flag(h, "C07.paging", fmt.Sprintf("following the Link chain never lists %s", e))
+				name := "C07.paging"
+				for _, ms := range rs.mans {
+					if ms.subject == subject && ms.respLost && ms.refDesc == e {
+						name = "C07.refs-exact.response-collected-with-subject"
+					}
+				}
+				m.flag(h, name, fmt.Sprintf("following the Link chain never lists %s", e))
 			}
+		}
+	}
+	lost := map[string]bool{}
+	for _, ms := range rs.mans {
+		if ms.subject == subject && ms.respLost {
+			lost[ms.refDesc] = true
 		}
 	}
 	if !paged {
 		for e := range exp {
 			if !seen[e] && !tooBig[e] {
-				m.flag(h, "C07.refs-exact", fmt.Sprintf("referrers of %s lacks %s", sTok, e))
+				name := "C07.refs-exact"
+				if lost[e] {
+					name += ".response-collected-with-subject"
+				}
+				m.flag(h, name, fmt.Sprintf("referrers of %s lacks %s", sTok, e))
 			}
 		}
 	}
 	anyRef := false
 	for _, ms := range rs.mans {
-		if ms.subject == subject && ms.refDesc != "" {
+		if ms.subject == subject && ms.refDesc != "" && !ms.respLost {
 			anyRef = true
 		}
 	}
@@ -1084,6 +1108,14 @@ func (m *Monitors) raw(h *H, a []string, r Resp) {
 
 func (m *Monitors) gc(h *H, repo string) {
 	rs := m.repo(repo)
+	// a response is kept only with its subject (ReferrersWithSubj / ReferrersDangling): referrers that stay are no longer listed
+	if *h.conf.Storage.GC.ReferrersWithSubj || *h.conf.Storage.GC.ReferrersDangling {
+		for _, ms := range rs.mans {
+			if sm, ok := rs.mans[ms.subject]; ms.subject != "" && (!ok || sm.blobGone) {
+				ms.respLost = true
+			}
+		}
+	}
 	if *h.conf.Storage.GC.Untagged || rs.refDirty || (h.conf.Storage.GC.ReferrersDangling != nil && *h.conf.Storage.GC.ReferrersDangling) {
 		// the policy may remove manifests: what is retained is judged by the collection properties (C05, C06), not here
 		rs.dirty = true
